@@ -440,6 +440,120 @@ void run_c20(const std::vector<std::vector<std::string>>& cases, vt::Rng& rng)
    }
 }
 
+
+// ---- C11 -------------------------------------------------------------------------------
+// case line: <id> <comp B|F|L> <moving> <rel eq|sum|diff|twice|half> <a> <b|->
+//   masses: mh mH mA mHp mw mz mhSM mt mb mtau mm  (moving mass must be one of mh mH mA mHp mhSM)
+double& mass_ref(thdm::THDM_B_parameters& p, const std::string& n)
+{
+   if (n == "mh") return p.mh(0); if (n == "mH") return p.mh(1); if (n == "mA") return p.mA; if (n == "mHp") return p.mHp;
+   if (n == "mw") return p.mw; if (n == "mz") return p.mz; return p.mhSM;
+}
+double& mass_ref(thdm::THDM_F_parameters& p, const std::string& n)
+{
+   if (n == "mh") return p.mh(0); if (n == "mH") return p.mh(1); if (n == "mA") return p.mA; if (n == "mHp") return p.mHp;
+   if (n == "mw") return p.mw; if (n == "mz") return p.mz; if (n == "mhSM") return p.mhSM;
+   if (n == "mt") return p.mu(2); if (n == "mb") return p.md(2); if (n == "mtau") return p.ml(2); if (n == "mc") return p.mu(1);
+   return p.mm;
+}
+double& mass_ref(thdm::THDM_1L_parameters& p, const std::string& n)
+{
+   if (n == "mh") return p.mh(0); if (n == "mH") return p.mh(1); if (n == "mA") return p.mA; if (n == "mHp") return p.mHp;
+   if (n == "mw") return p.mw; if (n == "mz") return p.mz; if (n == "mhSM") return p.mhSM;
+   if (n == "mtau") return p.ml(2); return p.mm;
+}
+
+template <class P>
+double target_mass(P& p, const std::string& rel, const std::string& a, const std::string& b)
+{
+   const double ma = mass_ref(p, a);
+   const double mb = b == "-" ? 0.0 : mass_ref(p, b);
+   if (rel == "eq") return ma;
+   if (rel == "sum") return ma + mb;
+   if (rel == "diff") return std::fabs(ma - mb);
+   if (rel == "twice") return 2 * ma;
+   return 0.5 * ma;
+}
+
+const double kOffsets[] = {-1e-3, -1e-4, -1e-5, -1e-6, -1e-7, -1e-8, -1e-9, -1e-10, -1e-11, -1e-12, -1e-13, 0.0,
+                           1e-13, 1e-12, 1e-11, 1e-10, 1e-9, 1e-8, 1e-7, 1e-6, 1e-5, 1e-4, 1e-3};
+
+template <class P, class F>
+void emit_path(const std::string& id, const std::string& sig, P p, const std::string& moving, double m0, F&& eval)
+{
+   int k = 0;
+   for (double d : kOffsets) {
+      P q = p;
+      mass_ref(q, moving) = m0 * (1 + d);
+      vt::Ev ev("Point");
+      ev.str("case", id).str("sig", sig).i("di", k++).num("d", d).num("m", m0 * (1 + d)).raw("v", vm::named_json(eval(q)));
+      ev.emit();
+   }
+   vt::Ev("PathEnd").str("case", id).str("sig", sig).str("exc", "").emit();
+}
+
+void run_c11(const std::vector<std::vector<std::string>>& cases, vt::Rng& rng)
+{
+   for (const auto& c : cases) {
+      const std::string& id = c.at(0);
+      const std::string &comp = c.at(1), &moving = c.at(2), &rel = c.at(3), &a = c.at(4), &b = c.at(5);
+      const std::string sig = comp + "/" + moving + "/" + rel + "/" + a + (b == "-" ? "" : "," + b);
+      ThdmPt p = vm::random_thdm_mass(rng, 1 + rng.below(5), false);     // types I..aligned
+      p.mb.mh = 125.0; p.mb.mH = rng.uni(250, 900); p.mb.mA = rng.uni(100, 900); p.mb.mHp = rng.uni(150, 900);
+      p.mb.tan_beta = rng.logu(1, 30);
+      p.mb.m122 = p.mb.mA * p.mb.mA * p.mb.tan_beta / (1 + p.mb.tan_beta * p.mb.tan_beta) * rng.uni(0.7, 1.2);
+      p.cfg.running_couplings = false;
+      Built bm = build(p);
+      if (!bm.exc.empty()) { vt::Ev("PathEnd").str("case", id).str("sig", sig).str("exc", bm.exc).emit(); continue; }
+      if (comp == "M") {
+         // the public path: the mass-basis input itself is moved and the model rebuilt at every offset
+         auto in_mass = [&](const std::string& n) -> double {
+            if (n == "mh") return p.mb.mh; if (n == "mH") return p.mb.mH; if (n == "mA") return p.mb.mA; if (n == "mHp") return p.mb.mHp;
+            if (n == "mw") return bm.model->get_MVWm(); if (n == "mz") return bm.model->get_MVZ(); if (n == "mhSM") return p.sm.get_mh();
+            if (n == "mt") return p.sm.get_mu(2); if (n == "mb") return p.sm.get_md(2); if (n == "mtau") return p.sm.get_ml(2);
+            return p.sm.get_ml(1);
+         };
+         const double ma = in_mass(a), mbb = b == "-" ? 0.0 : in_mass(b);
+         const double m0 = rel == "eq" ? ma : rel == "sum" ? ma + mbb : rel == "diff" ? std::fabs(ma - mbb) : rel == "twice" ? 2 * ma : 0.5 * ma;
+         if (!(m0 > 1.0)) continue;
+         int k = 0;
+         std::string exc;
+         for (double d : kOffsets) {
+            ThdmPt q = p;
+            (moving == "mh" ? q.mb.mh : moving == "mH" ? q.mb.mH : moving == "mA" ? q.mb.mA : q.mb.mHp) = m0 * (1 + d);
+            Built bq = build(q);
+            if (!bq.exc.empty()) { exc = bq.exc; break; }
+            vt::Ev ev("Point");
+            ev.str("case", id).str("sig", sig).i("di", k++).num("d", d).num("m", m0 * (1 + d)).raw("v", vm::named_json(vm::thdm_results(*bq.model)));
+            ev.emit();
+         }
+         vt::Ev("PathEnd").str("case", id).str("sig", sig).str("exc", exc).emit();    // a refused offset voids the path
+      } else if (comp == "B") {
+         auto pb = vm::thdm_B_pars(*bm.model);
+         const double m0 = target_mass(pb, rel, a, b);
+         if (!(m0 > 1.0)) continue;
+         emit_path(id, sig, pb, moving, m0, [](const thdm::THDM_B_parameters& q) {
+            return NV{{"amu2LB", thdm::amu2L_B(q)}, {"B_EWadd", thdm::amu2L_B_EWadd(q)}, {"B_nonYuk", thdm::amu2L_B_nonYuk(q)},
+                      {"B_Yuk", thdm::amu2L_B_Yuk(q)}};
+         });
+      } else if (comp == "F") {
+         auto pf = vm::thdm_F_pars(*bm.model);
+         const double m0 = target_mass(pf, rel, a, b);
+         if (!(m0 > 1.0)) continue;
+         emit_path(id, sig, pf, moving, m0, [](const thdm::THDM_F_parameters& q) {
+            return NV{{"amu2LF", thdm::amu2L_F(q)}, {"F_charged", thdm::amu2L_F_charged(q)}, {"F_neutral", thdm::amu2L_F_neutral(q)}};
+         });
+      } else {
+         auto p1 = vm::thdm_1L_pars(*bm.model);
+         const double m0 = target_mass(p1, rel, a, b);
+         if (!(m0 > 1.0)) continue;
+         emit_path(id, sig, p1, moving, m0, [](const thdm::THDM_1L_parameters& q) {
+            return NV{{"amu1L", thdm::amu1L(q)}, {"amu1L_approx", thdm::amu1L_approx(q)}};
+         });
+      }
+   }
+}
+
 } // namespace
 
 int main(int argc, char** argv)
@@ -455,6 +569,7 @@ int main(int argc, char** argv)
    else if (mode == "c09") run_c09(cases, rng);
    else if (mode == "c10") run_c10(cases, rng);
    else if (mode == "c20") run_c20(cases, rng);
+   else if (mode == "c11") run_c11(cases, rng);
    else { std::fprintf(stderr, "unknown mode %s\n", mode.c_str()); return 2; }
    vt::flush_trace();
    return 0;
